@@ -149,7 +149,8 @@ void Executor::check_after_optimize(Obj& o, const Op& op, int st, bool flag_was_
         count("abort_value_on_infeasible");
       }
     }
-    if (!is_abort(st) && !is_final(st) && st != sut::ST_OPTIMAL_UNSCALED_VIOLATIONS && s.numCols() > 0 && anyArmed && !bugs_fired) {
+    if ((st == sut::ST_ABORT_CYCLING || st == sut::ST_SINGULAR) && anyArmed) count(std::string("solver_gave_up:") + sut::status_name(st));   // gave up for its own reason: not stopped by the limit, not a verdict
+    else if (!is_abort(st) && !is_final(st) && st != sut::ST_OPTIMAL_UNSCALED_VIOLATIONS && s.numCols() > 0 && anyArmed && !bugs_fired) {
       // a stopped solve must report the stop. Whether the stop or the solver itself produced this status is decided by the
       // uninterrupted twin: only if the twin reaches a verdict is the status of the stopped solve dishonest.
       int st2 = twin_solve(o, t, nullptr);
